@@ -8,12 +8,16 @@ T="contract-based deductive verification: WP-style VC generation over go/ssa + S
 claimed={
  "C01": dict(text="Necessary conditions only, for two mechanisms: NameScope.Unique/HashedUnique never return an identifier that is already in use and record it (whole-map postconditions, so two calls cannot collide; same hash gives the same name), and fixReservedGo never returns a Go keyword, predeclared identifier or imported package name, and every non-empty identifier Goify returns has passed through it (or is one of the two fixed defaults). That every accepted design generates code that compiles (templates, type-correctness of emitted Go) cannot be stated as a contract and is not claimed.",
              ref="§3 C01", technique=T),
+ "C02": dict(text="Necessary conditions only, on the design-model and runtime functions the round trip rests on: the attribute-name / wire-name tables of a mapped attribute are read and written consistently (ElemName, KeyName, Map, Remap, DupMappedAtt: what one table records the other inverts, so KeyName(ElemName(k)) = k), an attribute moved to a header/parameter/cookie is removed from the body object and its required list exactly (Object.Delete, RemoveRequired, removeAttributes), and path variables are captured decoded once under their registered name (the router contracts of C16). That the generated client encoder and server decoder are inverse for every design is a property of generated programs and is not claimed.",
+             ref="§3 C02", technique=T),
  "C05": dict(text="Runtime half only: the default error encoder writes exactly one header and one body, the status is the one the response object reports, plain errors become a 500 fault, service errors map through the flag table, decoding-error constructors give 400/415 (lemmas over the table). Declared errors are generated code and are not covered.",
              ref="§3 C05", technique=T),
  "C06": dict(text="Design/runtime half only: requirement inheritance and override in MethodExpr.Finalize (NoSecurity clears, own requirements win, service then API requirements are copied element-wise by copyReqs), scope validation (a scheme validates exactly when every required scope is presented). The generated endpoint wrappers (any-requirement/all-schemes evaluation, credential extraction) are generated code and are not covered.",
              ref="§3 C06", technique=T),
  "C09": dict(text="Three mechanisms only: (1) the structural hash functions contain no order-dependent range over a map (commutativity obligation for every map range in hashUserType/hashObject), (2) File.Render leaves an existing SkipExist file untouched (ghost file-system model: no mkdir/open/write reached), (3) comparators handed to sort.Slice order the slice being sorted. Template rendering, directory clean-up and process-level repeatability are not covered.",
              ref="§3 C09", technique=T),
+ "C10": dict(text="Two mechanisms only: design validation accepts a gRPC message only when every (non-union) attribute has a field number and no number is used twice (validateRPCTags), the proto generator emits the number validation checked (rpcTag reads the last rpc:tag through FieldTag), and the runtime unary handler invokes the endpoint only after the request decoder accepted the message, with the decoded request (rejected messages never reach user code). Well-formedness of the emitted .proto text and the generated conversion code are not covered (protoc absent, generated programs).",
+             ref="§3 C10", technique=T),
  "C11": dict(text="RunDSL: the four phases are global (ghost phase automaton: every WalkSets/prepare/validate/finalize call-site precondition is a barrier obligation), every root registered before the run completes all four phases when nil is returned, finalization never starts on a failed design. The environment (WalkSets callbacks, set runners) and the dependency sort Roots() are assumed contracts; Roots() additionally has a bounded stand-in (all digraphs <= 4 roots x all registration orders), labelled bounded and not counted as proved.",
              ref="§3 C11", technique=T+"; bounded exhaustive execution for Roots()"),
  "C13": dict(text="Stated parts: permutation invariance of the hash (the comparators handed to sort.Slice are strict orders by attribute name, the slices hashObject/hashUnion range over are in ascending name order and as long as the declared list, and every iteration appends exactly separator+name+separator+hash(type, same flags): per-iteration relations, the fold follows by induction on the iteration count, which is not machine checked), run-to-run determinism (no order-dependent map range), every attribute DupType installs in a copied array/map/union/object/user type is one produced by DupAttribute (store and call-site discipline on the real body), freshness of every node DupAttribute / ValidationExpr.Dup / MetaExpr.Dup allocate and their frames (nothing pre-existing is written). DupType's frame is assumed (trusted) for the mutual recursion. No global injectivity of the hash, no termination.",
@@ -34,12 +38,10 @@ claimed={
              ref="§3 C18", technique=T),
 }
 na={
- "C02": "The client-encode / server-decode round trip relates two programs that goa generates as text for every design. The functions that decide the attribute-to-location partition walk cyclic expression graphs through dozens of helpers with package-level state and emit templates; no contract on a /repo function within the verifier's subset states the round trip, and proving a hand-written model of the generated code would be a different technique.",
  "C03": "Same as C02 for responses and errors: the property is about generated encoder/decoder pairs, not about a function of /repo that can carry a contract. The runtime pieces it rests on (ErrorResponse status table, encoder selection) are decided under C05 and C15.",
  "C04": "The validation code whose acceptance set the property describes is emitted text (codegen/validation.go builds Go source with templates). The runtime validators it calls are decided under C17 and the error constructors under C05; a contract over the emitted text would need a verifier for the generated programs per design, which was not built.",
  "C07": "Relates the output of two generators (OpenAPI 2 and 3 documents) and an external schema validator over all designs; it is a relation between two whole-program outputs, not a postcondition of one function.",
  "C08": "Result-type projection (expr.Project) is recursive, memoised through string hashes, runs DSL through eval.Execute and the property also covers generated view code; outside the subset (deep recursion over cyclic graphs with global registries) and partly about generated programs.",
- "C10": "gRPC/protobuf conversion code is generated text and protoc is not installed in the sandbox; nothing in /repo that runs can carry the contract.",
  "C12": "Whole-program panic freedom and termination of dsl/ + expr/ evaluation for every DSL program: termination is not proved by this verifier, and the property quantifies over all call sequences of ~200 DSL functions sharing global state, not over one function or data structure.",
 }
 default_na="no contract within reach decides this property"
